@@ -32,6 +32,13 @@ LEVEL_TEXT = ('Full. Coq theorems over a hand-written state-machine model of VTK
               'of the section writers in write(), the keyword words of every vtkFile.write, the loops over spheres / contact edges / field dict and the guards of '
               'POINT_DATA / CELL_DATA equal the hand model\'s structure table BY COMPUTATION (C20_source_structure_is_model_structure); the IR interpreted on the '
               'shape of a state gives the keyword tokens of the model file on concrete states (C20_structure_trace_examples) and on a sample of scenario states per run. '
+              'Follow-up: words are also read AT THE DECLARED data type (read_at: an integer VTK type admits integer literals only, within its range; '
+              'C20_int_word_at_declared_type, C20_integer_type_admits_integer_literals_only); stream intdtype: every integer VTK data type x numpy signed / numpy '
+              'unsigned / jax signed / jax unsigned source arrays x no padding / spheres / contact edges with 0, 2^31, 2^53+1 and the type limits (Python lists are '
+              'rejected by add_*_field itself and are not generated); finding F16 (uint64 data + padding was promoted to float64 by numpy) found by this stream and fixed in /repo 4ea53d1; its witness is replayed on every run. '
+              'C20_source_tables_terminated: every table write in the source is immediately followed by a newline write in the same block (by computation on the '
+              'extracted IR; helpers that receive the file are extracted too); thorough tier (and any run on changed source): one 34000-node / 67262-element file with '
+              'tables longer than 65536 rows, declared counts vs records and values (no Coq text round trip for that file). '
               'NOT PROVED: float_repr_contract for CPython; correctness of round_bin w.r.t. IEEE 754; the line/word splitting (str.split in the harness); '
               'the keyword-trace equality for ALL states (only the table equality is for all paths; the interpreter equality is per state).')
 TECHNIQUE = 'Coq proof over a hand model (lists/nat/Z, opaque exact-rational value tokens) + vm_compute correspondence on real .vtk files'
@@ -639,6 +646,185 @@ def dtype_stream(ctx, model_ok=True):
     return n_checked
 
 
+# ------------------------------------------------------------------------------------------ integer data types x source arrays x padding
+INT_LABELS = ['bit', 'unsigned_char', 'char', 'unsigned_short', 'short', 'unsigned_int', 'int', 'unsigned_long', 'long']
+INT_RANGE = {'bit': (0, 1), 'unsigned_char': (0, 255), 'char': (-128, 127), 'unsigned_short': (0, 65535), 'short': (-32768, 32767),
+             'unsigned_int': (0, 2 ** 32 - 1), 'int': (-2 ** 31, 2 ** 31 - 1), 'unsigned_long': (0, 2 ** 64 - 1), 'long': (-2 ** 63, 2 ** 63 - 1)}
+UNSIGNED_OF = {'bit': 'uint8', 'unsigned_char': 'uint8', 'char': 'uint8', 'unsigned_short': 'uint16', 'short': 'uint16',
+               'unsigned_int': 'uint32', 'int': 'uint32', 'unsigned_long': 'uint64', 'long': 'uint64'}
+
+
+def int_case(label, src, pad, order, seed, workdir):
+    """one writer: a nodal and a cell field declared with the integer VTK data type `label`, data held in a `src` array
+    ('signed' numpy int32/int64, 'unsigned' numpy uint*, 'jax_signed', 'jax_unsigned'), padding 'none' / 'spheres' / 'edges' / 'both'.
+    -> list of (kind, src_dtype, padded, label, ft, words of the field in the file, supplied integers incl. padding zeros)"""
+    import random
+    import numpy as np
+    from optimism import VTKWriter as V
+    r = random.Random(seed)
+    mesh = get_mesh(dict(nx=2, ny=2, order=order, bubble=False))
+    nall, nel = int(mesh.coords.shape[0]), int(mesh.conns.shape[0])
+    lo, hi = INT_RANGE[label]
+    unsigned = src.endswith('unsigned')
+    if unsigned:
+        npdt = UNSIGNED_OF[label]
+        lo2, hi2 = max(lo, 0), min(hi, int(np.iinfo(npdt).max))
+    else:
+        npdt = 'int32' if -2 ** 31 <= lo and hi <= 2 ** 31 - 1 else 'int64'
+        lo2, hi2 = max(lo, -2 ** 63), min(hi, 2 ** 63 - 1)
+    special = [x for x in (0, 1, lo2, hi2, 2 ** 31, 2 ** 53 + 1, 2 ** 53 + 3, -(2 ** 53 + 1)) if lo2 <= x <= hi2]
+    FTE = [V.VTKFieldType.SCALARS, V.VTKFieldType.VECTORS, V.VTKFieldType.TENSORS]
+    dte = [d for d in V.VTKDataType if d.value == label][0]
+    w = V.VTKWriter(mesh, os.path.join(workdir, 'i'))
+    supplied = {}
+    for kind, n in (('nodal', nall), ('cell', nel)):
+        ft = r.randrange(3)
+        dim = 2 if ft else 0
+        shape = {0: (n,), 1: (n, dim), 2: (n, dim, dim)}[ft]
+        cnt = int(np.prod(shape))
+        vals = [r.choice(special) if r.random() < 0.6 else r.randrange(lo2, hi2 + 1) for _ in range(cnt)]
+        vals[:len(special)] = special[:cnt]
+        data = np.array(vals, dtype=npdt).reshape(shape)
+        arr = data
+        if src.startswith('jax'):
+            import jax.numpy as jnp
+            arr = jnp.asarray(data)
+            if str(arr.dtype) != npdt:
+                raise RuntimeError('jax did not keep dtype %s' % npdt)
+        (w.add_nodal_field if kind == 'nodal' else w.add_cell_field)('q' + kind, arr, FTE[ft], dte)
+        supplied['q' + kind] = (kind, ft, dim, data)
+    nsph = 2 if pad in ('spheres', 'both') else 0
+    ned = 2 if pad in ('edges', 'both') else 0
+    for k in range(nsph):
+        w.add_sphere(np.array([0.25 * (k + 1), 0.5]), 0.125)
+    if ned:
+        w.add_contact_edges(np.array([[0, 1], [1, 2]], dtype=np.int64))
+    w.write()
+    rd = py_read(open(os.path.join(workdir, 'i.vtk')).read())
+    out_nodes = np.asarray(w.outputNodes)
+    res = []
+    for name, (kind, ft, dim, data) in supplied.items():
+        t, lab, strs, n = rd['pd' if kind == 'nodal' else 'cd'][name]
+        d0 = data[out_nodes] if kind == 'nodal' else data
+        rows = d0.shape[0]
+        if ft == 0:
+            want = d0.reshape(rows, 1)
+        elif ft == 1:
+            want = np.zeros((rows, 3), d0.dtype); want[:, :dim] = d0
+        else:
+            want = np.zeros((rows, 3, 3), d0.dtype); want[:, :dim, :dim] = d0; want = want.reshape(rows, 9)
+        npad = nsph if kind == 'nodal' else ned
+        ints = [int(x) for x in want.reshape(-1)] + [0] * (npad * want.shape[1])
+        res.append(dict(kind=kind, src_dtype=npdt, padded=npad > 0, label=lab, declared=label, ft=ft, words=list(strs), ints=ints))
+    return res
+
+
+def intdtype_stream(ctx, model_ok, only=None):
+    """every integer VTK data type x {numpy signed, numpy unsigned, jax signed, jax unsigned} source arrays x {no padding, spheres,
+    contact edges}: every word of the field must be a literal OF THE DECLARED data type (Coq reader read_at: an integer type admits
+    no '.'/'e' literal, range of the type) and the values read must be exactly the supplied integers (0, 2^31, 2^53+1, type limits...).
+    Python lists are not admissible inputs of add_nodal_field / add_cell_field (fancy indexing / .shape) and are not generated."""
+    r = ctx.rng('intdtype')
+    workdir = os.path.join(C.RUN, 'c20_%d_i' % os.getpid())
+    os.makedirs(workdir, exist_ok=True)
+    cases = []
+    try:
+        if only is not None:
+            combos = [only]
+        else:
+            combos = [(lab, src, pad) for lab in INT_LABELS for src in ('signed', 'unsigned', 'jax_signed', 'jax_unsigned') for pad in ('none', 'spheres', 'edges')]
+            if ctx.tier != 'quick' or getattr(ctx, 'escalated', False):
+                combos += [(lab, src, 'both') for lab in INT_LABELS for src in ('signed', 'unsigned')] * 2
+        for (lab, src, pad) in combos:
+            order = r.choice([1, 2, 3, 4])
+            seed = r.randrange(10 ** 9)
+            base = dict(intdtype=True, vtk=lab, src=src, pad=pad, order=order, seed=seed)
+            try:
+                res = int_case(lab, src, pad, order, seed, workdir)
+            except Exception as ex:
+                ctx.fail('conclusion', 'integer data-type stream: implementation / reader raised %r (declared %s, %s source, padding %s)' % (ex, lab, src, pad),
+                         case=dict(base, clause='exception'), concrete=True)
+                continue
+            for f in res:
+                cases.append((base, f))
+    finally:
+        shutil.rmtree(workdir, ignore_errors=True)
+    # the Coq reader on every word of every field, at the declared data type
+    coq = None
+    if model_ok and cases:
+        exprs = ['flat_map (fun s => enc_ov (read_at %s s)) [%s]' % (DT_COQ[DT_STR.index(f['declared'])], '; '.join(coq_str(x) for x in f['words'])) for _, f in cases]
+        coq = C.coq_eval(IMPORTS, exprs, 'C20t', shard=60, timeout=600, preamble=STR_PRE)
+    for ci, (base, f) in enumerate(cases):
+        ctx.count('int_dtype_fields_checked')
+        ctx.count('int_dtype_words_read_at_declared_type', len(f['words']))
+        case = dict(base, kind=f['kind'], src_dtype=f['src_dtype'], padded=f['padded'], ft=f['ft'])
+        desc = '%s %s field declared %s, data in a %s array (%s), %s' % (f['kind'], ['scalar', 'vector', 'tensor'][f['ft']], f['declared'], f['src_dtype'], base['src'],
+                                                                      'padded for spheres / contact edges' if f['padded'] else 'no padding')
+        if f['label'] != f['declared']:
+            ctx.fail('conclusion', 'integer data-type stream: %s: header says %s' % (desc, f['label']), case=dict(case, clause='label'), concrete=True)
+        bad = [x for x in f['words'] if not _INT.match(x)]
+        if bad:
+            ctx.fail('conclusion', 'integer data-type stream: %s: word %r is not a literal of the declared integer type (%d such words, e.g. for the supplied value %r)'
+                     % (desc, bad[0], len(bad), f['ints'][f['words'].index(bad[0])] if f['words'].index(bad[0]) < len(f['ints']) else None),
+                     case=dict(case, clause='intlit', word=bad[0]), concrete=True)
+            continue
+        got = [int(x) for x in f['words']]
+        if got != f['ints']:
+            k = next((i for i, (a, b) in enumerate(zip(got, f['ints'])) if a != b), min(len(got), len(f['ints'])))
+            ctx.fail('conclusion', 'integer data-type stream: %s: record %d reads %r, supplied %r (%d words for %d values)'
+                     % (desc, k, got[k] if k < len(got) else None, f['ints'][k] if k < len(f['ints']) else None, len(got), len(f['ints'])),
+                     case=dict(case, clause='intval'), concrete=True)
+            continue
+        if coq is not None:
+            zs, want = coq[ci], []
+            for v in f['ints']:
+                want += [1, v, 1]
+            if list(zs) != want:
+                ctx.fail('conclusion', 'integer data-type stream: %s: the Coq reader at the declared type (read_at) does not return the supplied integers' % desc,
+                         case=dict(case, clause='intcoq'), concrete=True)
+    return len(cases)
+
+
+def big_mesh_stream(ctx):
+    """thorough tier only: tables longer than 65536 rows (67262 elements; a nodal TENSORS field on 34000 nodes = 102000 rows):
+    declared counts against the records actually written, every word numeric (no Coq text round trip for this file)"""
+    import numpy as np
+    from optimism import Mesh
+    from optimism import VTKWriter as V
+    if ctx.tier == 'quick' and not getattr(ctx, 'escalated', False):
+        return
+    workdir = os.path.join(C.RUN, 'c20_%d_b' % os.getpid())
+    os.makedirs(workdir, exist_ok=True)
+    case = dict(big_mesh=True, nx=200, ny=170)
+    try:
+        mesh = Mesh.construct_structured_mesh(200, 170, [0.0, 1.0], [0.0, 1.0])
+        nn, ne = int(mesh.coords.shape[0]), int(mesh.conns.shape[0])
+        w = V.VTKWriter(mesh, os.path.join(workdir, 'b'))
+        T = np.zeros((nn, 2, 2)); T[:, 0, 0] = np.arange(nn); T[:, 1, 1] = 0.5
+        w.add_nodal_field('T', T, V.VTKFieldType.TENSORS, V.VTKDataType.DOUBLE)
+        w.add_cell_field('id', np.arange(ne), V.VTKFieldType.SCALARS, V.VTKDataType.LONG)
+        w.add_sphere(np.array([0.5, 0.5]), 0.1)
+        w.add_contact_edges(np.array([[0, 1], [1, 2]]))
+        w.write()
+        text = open(os.path.join(workdir, 'b.vtk')).read()
+        try:
+            rd = py_read(text)
+            ok = (len(rd['points']) == nn + 1 and len(rd['cells']) == ne + 2 and len(rd['types']) == ne + 2
+                  and all(len(c) == 3 for c in rd['cells'][:ne]) and all(0 <= i < nn + 1 for c in rd['cells'] for i in c)
+                  and rd['pd']['T'][3] == nn + 1 and len(rd['pd']['T'][2]) == 9 * (nn + 1) and all(_NUM.match(x) for x in rd['pd']['T'][2])
+                  and [float(x) for x in rd['pd']['T'][2][0:9 * nn:9]] == [float(k) for k in range(nn)]
+                  and rd['cd']['id'][3] == ne + 2 and [int(x) for x in rd['cd']['id'][2]] == list(range(ne)) + [0, 0])
+            why = 'declared counts / records / values differ'
+        except Exception as ex:
+            ok, why = False, 'file not readable: %r' % (ex,)
+        ctx.count('big_mesh_files')
+        ctx.cov['big_mesh'] = dict(nodes=nn, elements=ne, tensor_rows=3 * (nn + 1))
+        if not ok:
+            ctx.fail('conclusion', 'large mesh (%d nodes, %d elements, tables longer than 65536 rows): %s' % (nn, ne, why), case=dict(case, clause='bigmesh'), concrete=True)
+    finally:
+        shutil.rmtree(workdir, ignore_errors=True)
+
+
 def intfmt_stream(ctx, model_ok):
     """tie of fmt_int (model/M_C20_Num.v) to the implementation's integer formatting: '{}'.format / str of Python ints and numpy
     integer scalars, and of the named float hypothesis on extreme doubles: repr(x) read by the Coq reader is x"""
@@ -696,6 +882,8 @@ def correspondence(ctx, model_ok):
     nfiles = evaluate(ctx, scenarios, model_ok, 'm')
     nfiles += dtype_stream(ctx, model_ok)
     intfmt_stream(ctx, model_ok)
+    nfiles += intdtype_stream(ctx, model_ok)
+    big_mesh_stream(ctx)
     # report (not a failure: the caller chooses the label): fields whose VTK label class differs from the class of the supplied data,
     # and user fields stored under the reserved key sphere_radius (replaced by the marker radii whenever spheres exist)
     mism = resv = resv_replaced = 0
@@ -738,6 +926,11 @@ def search(ctx, reasons):
     except C.CoqError:
         c2.failures = []
         evaluate(c2, scenarios, False, 's')
+    try:
+        intdtype_stream(c2, model_ok)
+    except C.CoqError:
+        intdtype_stream(c2, False)
+    big_mesh_stream(c2)
     known = [f for f in C.load_known_findings() if f['property'] == ID and f['status'] == 'open']
     for fl in c2.failures:
         if fl.get('concrete') and not any(matches_finding(fl, f) for f in known):
@@ -770,6 +963,10 @@ def matches_finding(fl, f):
     if f['id'] == 'F10':
         return (clause == 'pd' and bool(c.get('cond10')) and c.get('order', 0) >= 3 and d.get('point_data') == c.get('nall', 0) + c.get('nsph', 0)
                 and d.get('points') == c.get('nout', 0) + c.get('nsph', 0))
+    if f['id'] == 'F16':
+        # unsigned 64-bit source data stacked with the Python-int padding zero is promoted to float64 by numpy
+        return (clause == 'intlit' and bool(c.get('intdtype')) and c.get('src_dtype') == 'uint64' and bool(c.get('padded'))
+                and c.get('src') in ('unsigned', 'jax_unsigned') and c.get('vtk') in ('unsigned_long', 'long'))
     if f['id'] == 'F11':
         return (clause == 'cd' and bool(c.get('cond11')) and d.get('cell_data') == c.get('nel') and d.get('cells') == c.get('nel', 0) + c.get('nedges', 0)
                 and c.get('stage') == 7)
@@ -780,6 +977,11 @@ def finding_fails(ctx, f):
     import copy
     c2 = copy.copy(ctx)
     c2.failures, c2.counts, c2.cov, c2.samples = [], {}, {}, []
+    if 'intdtype' in f['witness']:
+        import optimism  # noqa: F401
+        wt = f['witness']['intdtype']
+        intdtype_stream(c2, False, only=(wt['vtk'], wt['src'], wt['pad']))
+        return any(matches_finding(fl, f) for fl in c2.failures)
     evaluate(c2, [f['witness']['scenario']], False, 'k' + f['id'])
     return any(matches_finding(fl, f) for fl in c2.failures)
 
@@ -800,6 +1002,21 @@ def replay(ctx, path):
         if not ctx.failures:
             print('the dtype-aware / geometry stream of that seed now satisfies the conclusions')
         return 1 if ctx.failures else 0
+    if case and (case.get('intdtype') or case.get('big_mesh')):
+        ctx.failures = []
+        import optimism  # noqa: F401
+        if case.get('big_mesh'):
+            ctx.tier = 'thorough'
+            big_mesh_stream(ctx)
+        else:
+            intdtype_stream(ctx, False, only=(case['vtk'], case['src'], case['pad']))
+        known = [f for f in C.load_known_findings() if f['property'] == ID and f['status'] == 'open']
+        fresh = [fl for fl in ctx.failures if not any(matches_finding(fl, f) for f in known)]
+        for fl in fresh[:5]:
+            print('still failing:', fl['what'])
+        if not fresh:
+            print('the stored case now satisfies the conclusions (apart from known findings)')
+        return 1 if fresh else 0
     if not case or 'scenario' not in case:
         print('no concrete failing input recorded; broken obligations:', rep.get('broken'))
         return 1
